@@ -60,6 +60,7 @@ type lcOp struct {
 	waits    bool // WaitWhileSearching
 	hit      bool // PonderHit
 	idle     time.Duration
+	extra    bool // not enumerated by lcPrograms
 }
 
 var lcOps = []lcOp{
@@ -77,6 +78,7 @@ var lcOps = []lcOp{
 	{name: "IsReady"},
 	{name: "Idle(1ms)", idle: time.Millisecond},
 	{name: "Idle(20ms)", idle: 20 * time.Millisecond},
+	// (the start-while-running sweep appends its own idle ops, marked extra: not part of the enumerated alphabet)
 }
 
 // lcPrograms enumerates every call sequence up to the given length, excluding only programs the
@@ -93,6 +95,9 @@ func lcPrograms(maxLen int) [][]int {
 			return
 		}
 		for i, o := range lcOps {
+			if o.extra {
+				continue
+			}
 			no := open
 			switch {
 			case o.waits && open != 0:
@@ -450,6 +455,63 @@ func c14(tier string, args []string) int {
 			run.Cap(fmt.Sprintf("stage %d (programs of length %d..%d, bound %d) not completed", si, st.minLen, st.maxLen, st.bound))
 		}
 	}
+	// start-while-running sweep: a start request that is rejected because a search is running must leave that search alone,
+	// whenever it arrives - also exactly when the timer has just set the stop flag and the search has not polled it yet.
+	// Programs: a ponder search with clock, ponderhit (its timer now runs), an idle of every multiple of the 5 ms polling
+	// period up to the budget, the rejected start, Wait; deviation bound 1 (the order in which threads woken by the same clock tick run is free).
+	{
+		opIdx := func(name string) int {
+			for i, o := range lcOps {
+				if o.name == name {
+					return i
+				}
+			}
+			panic("no op " + name)
+		}
+		var sweep [][]int
+		idles, fire := lcSweepIdles()
+		run.Set("start_while_running_sweep_timer_fires_at", fire.String())
+		for _, first := range [][]int{{opIdx("Start(C,ponder,wtime 300ms)"), opIdx("PonderHit")}} {
+			for _, id := range idles {
+				prog := append([]int{}, first...)
+				if id != "" {
+					prog = append(prog, opIdx(id))
+				}
+				// the rejected start, then the controller waits for the running search to end by its own time budget
+				// (a time-controlled start: if the first search is already over it is accepted and ends by itself, so Wait returns)
+				prog = append(prog, opIdx("Start(B,movetime 65ms)"), opIdx("Wait"))
+				sweep = append(sweep, prog)
+			}
+		}
+		done := 0
+		for pi, prog := range sweep {
+			if pi%n != shard || run.Expired() {
+				continue
+			}
+			prog := prog
+			ex := &sched.Explorer{Bound: 1, Body: lcBody(prog), MaxExec: 200000, Deadline: run.DeadlineTime()}
+			ex.Check = func(x *sched.Exec) {
+				run.AddTransitions(int64(x.Steps))
+				for _, vd := range lcCheck(prog, x) {
+					if strings.HasPrefix(vd.key, "INFRA") {
+						fmt.Fprintln(os.Stderr, "infrastructure error:", vd.what)
+						os.Exit(2)
+					}
+					run.Violate(vd.key, vd.what, map[string]interface{}{"kind": "schedule", "program": lcName(prog), "ops": prog, "choices": x.Choices, "events": x.EventsString()})
+				}
+			}
+			ex.Explore()
+			execs += int64(ex.Executions)
+			run.AddStates(1)
+			if ex.Capped {
+				run.Cap("start-while-running sweep not completed")
+			} else {
+				done++
+			}
+			run.SampleCat("start-while-running sweep (bound 1)", map[string]interface{}{"program": lcName(prog), "executions": ex.Executions})
+		}
+		run.Count("start_while_running_sweep_programs_completed", int64(done))
+	}
 	execs += c14DeepStop(run, tier, shard, n)
 	run.AddEvals(execs)
 	run.Count("executions", execs)
@@ -555,4 +617,30 @@ func c14DeepStop(run *vl.Run, tier string, shard, n int) int64 {
 		run.SampleCat("deep-stop", map[string]interface{}{"fen": c.fen, "mode": c.mode, "depth": c.depth, "bound": bound, "schedules": ex.Executions, "distinct_stop_arrivals": len(stopPositions)})
 	}
 	return execs
+}
+
+// lcSweepIdles: the idles of the start-while-running sweep - none, and those around the moment the timer of the hit ponder
+// search fires: its budget (from the engine's own budget function) rounded up to the 5 ms polling grid, one period earlier
+// and one later. The corresponding ops are appended to lcOps (marked extra) if they are not there yet; bin/replay calls
+// this too, so that the op indices of a recorded sweep program resolve.
+func lcSweepIdles() ([]string, time.Duration) {
+	pc, _ := position.NewPositionFen(lcFens["C"])
+	budget := search.NewSearch().VerifTimeBudget(pc, &search.Limits{Ponder: true, TimeControl: true, WhiteTime: 300 * time.Millisecond, BlackTime: 300 * time.Millisecond, Depth: 1})
+	fire := ((budget + 5*time.Millisecond - 1) / (5 * time.Millisecond)) * 5 * time.Millisecond
+	idles := []string{""}
+	for _, d := range []time.Duration{fire - 5*time.Millisecond, fire, fire + 5*time.Millisecond} {
+		if d <= 0 {
+			continue
+		}
+		name := fmt.Sprintf("Idle(%dms)", d.Milliseconds())
+		found := false
+		for _, o := range lcOps {
+			found = found || o.name == name
+		}
+		if !found {
+			lcOps = append(lcOps, lcOp{name: name, idle: d, extra: true})
+		}
+		idles = append(idles, name)
+	}
+	return idles, fire
 }
